@@ -560,7 +560,16 @@ def judge_c15(ctx, idx, op, impl, mi, ms, reason):
     if op[0] == "dbyname":
         return judge_c14(ctx, idx, op, impl, mi, ms, reason)
     if op[0] == "dec":
-        return judge_c03(ctx, idx, op, impl, mi, ms, reason)
+        f = judge_c03(ctx, idx, op, impl, mi, ms, reason)
+        for x in f:
+            if x.kind == "property":
+                if impl.startswith("ok"):
+                    x.name = "C15_reject"
+                    x.msg = "an AVP without a dictionary entry for its exact (code, vendor) pair, or with an entry of unrecognised type, was accepted (" + x.msg + ")"
+                else:
+                    x.name = "C15_variant"
+                    x.msg = "an AVP whose exact dictionary entry declares a recognised type was refused (" + x.msg + ")"
+        return f
     if op[0] == "rt":
         f = judge_c02(ctx, idx, op, impl, mi, ms, reason)
         for x in f:
